@@ -702,7 +702,7 @@ fn gen_case(batch: &str, _index: u64, seed: u64) -> Case {
         m: if pr.chance(0.3) { None } else { Some(pr.usize_in(1, p)) },
         max_depth: if pr.chance(0.5) { None } else { Some(pr.usize_in(1, 8) as u16) },
         min_samples_leaf: pr.usize_in(1, 5),
-        min_samples_split: pr.usize_in(2, 8),
+        min_samples_split: pr.usize_in(0, 8),
         criterion: pr.pick(&["gini", "entropy", "class-error"]).to_string(),
         keep_samples: pr.chance(0.7),
         seed: seedv,
